@@ -57,6 +57,7 @@ def draw_cfg(st):
         "p_clock_jump": [0.0, 0.05][st.choose(2, "clockjump")],
         "finish_inside": True,
         "reserved_names": True,
+        "w_reenter": st.choose(3, "reenter"),
         "exc": P.DEFAULT_EXC + ["ExtractMe", "ExtractSub"],
         "act_styles": [i for i in range(len(P.ACT_STYLES)) if i in (0, 1) or st.choose(2, "style-on")],
         "msg_apis": [0, 1, 2],
